@@ -151,6 +151,8 @@ func runSpecial(name, prop string, seed int64, n int, drvPath, widths, outPath, 
 		specialStreams(c)
 	case "locks":
 		specialLocks(c)
+	case "resizeidle":
+		specialResizeIdle(c)
 	default:
 		fmt.Println("unknown special check", name)
 		return 2
@@ -285,6 +287,47 @@ func specialMouse(c *specialCtx) {
 							}
 						}
 					}
+				}
+			}
+		}
+		// the same state reached along other paths: sets and resets of the mouse modes and encodings
+		// in random order (the model follows through the parser); then a sample of events
+		pr := newPrng(uint64(c.seed)*131 + uint64(i))
+		for path := 0; path < 40; path++ {
+			im2, _ := newImpl(0, false, 10, 5)
+			var seq []byte
+			for k, n := 0, 2+pr.intn(6); k < n; k++ {
+				seq = append(seq, []byte(fmt.Sprintf("\x1b[?%s%s", pick(pr, []string{"9", "1000", "1002", "1003", "1005", "1006", "1015", "1006", "1005", "1000;1006", "1002;1005", "9;1015"}), pick(pr, []string{"h", "l", "h"})))...)
+			}
+			if path%2 == 0 {
+				seq = append(seq, []byte(modes[cb.mode]+encs[cb.enc])...)
+			}
+			feedAll(im2, seq)
+			if _, err := d.cmdBlock("case keep 10 5"); err != nil {
+				break
+			}
+			_ = d.send("feed " + hex.EncodeToString(seq))
+			mo, err := d.cmdBlock(fmt.Sprintf("adv %d", len(seq)))
+			if err != nil {
+				break
+			}
+			var vf string
+			var mMode, mEnc int
+			fmt.Sscanf(mo.lines["V"], "V %s %d %d", &vf, &mMode, &mEnc)
+			for ev := 0; ev < 24; ev++ {
+				btn, press, mods := pr.intn(4), pr.intn(2), 4*pr.intn(32)
+				x, y := pick(pr, mouseCoords), pick(pr, mouseCoordsY)
+				im2.be.written = im2.be.written[:0]
+				_, pan := im2.vt.SendMouse(te.MouseBtn(btn), press == 1, te.MouseFlag(mods), x, y)
+				got := "none"
+				if len(im2.be.written) > 0 {
+					got = hex.EncodeToString(im2.be.written)
+				}
+				want := d.ask(fmt.Sprintf("mouse %d %d %d %d %d %d %d", mMode, mEnc, btn, press, mods, x, y))
+				c.count(fmt.Sprintf("path %q %d %d %d", seq, btn, press, mods))
+				if pan != "" || got != want {
+					c.violation("mouse-report-after-mode-path", fmt.Sprintf("after %q (model: mode=%d enc=%d) btn=%d press=%d mods=%d x=%d y=%d: wrote %s, model %s %s", seq, mMode, mEnc, btn, press, mods, x, y, got, want, pan), fmt.Sprintf("%q", seq))
+					break
 				}
 			}
 		}
@@ -583,6 +626,18 @@ func specialSegmentation(c *specialCtx) {
 		if i%5 == 0 {
 			cs.Mode = 1 // grapheme mode: cuts between clusters only (below)
 			cs.Grid = false
+			if r.chance(1, 2) {
+				// flag emoji (regional-indicator pairs) in the middle of text, at and around the right edge
+				for k, n := 0, 1+r.intn(3); k < n; k++ {
+					flag := pick(r, []string{"🇺🇸", "🇩🇪", "🇯🇵"})
+					pre := strings.Repeat("x", r.intn(4))
+					it := []Item{in("wrap", []byte(pick(r, []string{"\x1b[?7h", "\x1b[?7h", "\x1b[?7l"}))),
+						in("goto", []byte(fmt.Sprintf("\x1b[%d;%dH", 1+r.intn(cs.H), 1+max(0, cs.W-1-len(pre)-r.intn(3))))),
+						in("textwide", []byte(pre+flag+pick(r, []string{"", "Z", flag})))}
+					at := r.intn(len(cs.Items) + 1)
+					cs.Items = append(cs.Items[:at], append(it, cs.Items[at:]...)...)
+				}
+			}
 		}
 		data := concatInput(&cs)
 		if i%40 == 7 {
